@@ -117,8 +117,16 @@ def _hook(label, nm, asyn):
     return hook
 
 
+def _eq_variant(cls, kind):
+    """Listener classes whose instances are unhashable (like a dataclass with eq=True) or all
+    compare equal: attaching them must work like attaching any other object."""
+    ns = {"__eq__": lambda self, other: isinstance(other, type(self).__mro__[1])}
+    ns["__hash__"] = None if kind == "unhashable" else (lambda self: 1)
+    return type(cls.__name__, (cls,), ns)
+
+
 def run_scenario(dist, cfg, attach_at, vals, reattach=0, expr_guard=False, two=False,
-                 same_cls=False, inst_bound=False):
+                 same_cls=False, inst_bound=False, lkind=None):
     """attach_at: 0, 1, 2 = L3 attached before the 1st / 2nd / after the 2nd event; None = never."""
     asyn = cfg.engine == "async"
     if same_cls:
@@ -133,6 +141,10 @@ def run_scenario(dist, cfg, attach_at, vals, reattach=0, expr_guard=False, two=F
     m1 = make_spec(dist, asyn, True, expr_guard)
     built = build(m0)
     l3cls = listener_class("L3", dist, asyn)
+    if lkind:
+        for lab in ("L1", "L2"):
+            built.listener_cls[lab] = _eq_variant(built.listener_cls[lab], lkind)
+        l3cls = _eq_variant(l3cls, lkind)
     if same_cls:
         cls1 = built.listener_cls["L1"]
 
@@ -234,23 +246,26 @@ def worker(block):
                 continue
             for attach_at in ((0, 1, 2) if uses_l3 else (None,)):
                 for vals in guard_valuations(dist, uses_l3):
-                    variants = [(0, False, False, False), (0, False, False, True)]
+                    variants = [(0, False, False, False, None), (0, False, False, True, None)]
                     if len(dist) == 1:
-                        variants += [(1, False, False, False), (2, False, False, False),
-                                     (0, True, False, False), (0, False, True, False),
-                                     (2, True, True, False), (1, True, False, True)]
-                    for (reattach, two, same_cls, inst_bound) in variants:
+                        variants += [(1, False, False, False, None), (2, False, False, False, None),
+                                     (0, True, False, False, None), (0, False, True, False, None),
+                                     (2, True, True, False, None), (1, True, False, True, None),
+                                     (0, False, False, False, "unhashable"),
+                                     (0, False, True, False, "equal"),
+                                     (2, False, False, False, "equal")]
+                    for (reattach, two, same_cls, inst_bound, lkind) in variants:
                         res.stats["evaluations"] += 1
                         sc = {"dist": {k: sorted(v) for k, v in dist.items()},
                               "cfg": list(cfg), "attach_at": attach_at,
                               "vals": [[list(k), v] for k, v in vals.items()],
                               "reattach": reattach, "two": two, "same_cls": same_cls,
-                              "inst_bound": inst_bound, "expr": kind == "expr"}
+                              "inst_bound": inst_bound, "lkind": lkind, "expr": kind == "expr"}
                         try:
                             with deadline(30):
                                 msg, steps = run_scenario(dist, cfg, attach_at, vals, reattach,
                                                           kind == "expr", two, same_cls,
-                                                          inst_bound)
+                                                          inst_bound, lkind)
                         except Ambiguous:
                             res.stats["ambiguous_skipped"] += 1
                             continue
@@ -274,6 +289,8 @@ def classify(msg, dist, vals, kind, cfg, attach_at):
             cat = key
             break
     sig = {"category": cat, "engine": cfg.engine}
+    if cat == "construct":
+        return sig
     # root causes that are known on the pinned tree get a precise signature
     guard_names = [nm for nm in ("ok", "blocked", "ready") if nm in dist]
     multi = [nm for nm in guard_names if len(dist[nm]) > 1]
@@ -321,5 +338,6 @@ def replay(sc):
     dist = {k: frozenset(v) for k, v in sc["dist"].items()}
     vals = {tuple(k): v for k, v in sc["vals"]}
     msg, _ = run_scenario(dist, Cfg(*sc["cfg"]), sc["attach_at"], vals, sc["reattach"],
-                          sc["expr"], sc["two"], sc["same_cls"], sc.get("inst_bound", False))
+                          sc["expr"], sc["two"], sc["same_cls"], sc.get("inst_bound", False),
+                          sc.get("lkind"))
     return msg
